@@ -328,7 +328,7 @@ fn cases(tier: Tier) -> Vec<Case> {
         push(&mut v, n, vec![vec![B::Sub(0, 1), B::StopSub(0)], vec![p, B::Pub(1, 42)]], b2);
     }
     // two subscribers and two publishers: the common order
-    let b3 = if q { Some(3) } else { Some(5) };
+    let b3 = if q { Some(3) } else { None };
     for p in pubs(41) {
         for r in [B::Pub(1, 42), B::PubAddr(1, 42)] {
             push(&mut v, 2, vec![vec![B::Sub(0, 1), B::Sub(1, 1), p], vec![r]], b3);
